@@ -167,6 +167,13 @@ def run_g_levels(chk, quick, replay):
     dreps = ["%" + w + " a b" for w in words] + ["%" + w for w in words[:6]] + ["<a>", "</a>"]
     r3, n3 = flow.run_g(chk, g_module(dreps), g_cfg(2, l16, l8, l5, 1), replay,
                         nontrivial=nontrivial_g, sample_every=97, timeout=900)
+    # closers: '</type>' and nothing else closes a section - a closer is compared with the open section's type as a
+    # whole (after trailing white space is dropped and letters are lower-cased), whatever else it may look like
+    creps = ["<a>", "<a b>", "<b x>", "</a>", "</a b>", "</a  a>", "</ a>", "</a >", "</A>", "</a\tb>", "</b x>",
+             "</a b c>", "</b>", "</a/>", "</a )>", "k v"]
+    r4, n4 = flow.run_g(chk, g_module(creps), g_cfg(2, l16, l8, l5, 3), replay,
+                        nontrivial=nontrivial_g, sample_every=997, timeout=900)
+    chk.note("g_closer_shape_texts", n4)
     chk.note("g_directive_word_texts", n3)
     chk.note("g_level1_texts", n1)
     chk.note("g_level2_texts", n2)
